@@ -256,6 +256,32 @@ def r01_5(ctx, A):
                       'sharing a prefix transition must split outputs as: m = min(t.out, out); t.out := m; out := out - m; remainder t.out_old - m pushed onto the NEXT node iff non-zero (min ok %s, out ok %s, t.out ok %s, remainder ok %s)' % (okp, ok_out, ok_t, rem_ok), fn=f)
         if n == 0:
             ctx.undecided(R, 'prefix-step', 'no prefix-sharing step recognised', fn=f)
+    # sibling of the above for sets (no outputs): the shared prefix is the longest run of positions where the pending transition's
+    # byte EQUALS the key byte - an ordering comparison, or a comparison against something else, merges different keys
+    f = lib.fn('raw::build::UnfinishedNodes::find_common_prefix')
+    if f is not None:
+        members = [f] + [g for g in lib.fn_list if g.kind == 'Closure' and g.path.startswith(f.path + '::')]
+        cmps = []
+        for g in members:
+            for p in explore(g, max_visits=1, havoc=True):
+                es = [d[2] for d in p.decisions] + ([p.ret()] if p.end == 'return' else [])
+                if p.end == 'return' and g.kind == 'Closure':
+                    rv = p.ret()
+                    if rv[0] == 'bin' and rv[1] == 'Ne' and any(y[0] == 'field' and y[2] == 'inp' for y in walk(rv)):
+                        cmps.append(('!= (the predicate holds where the bytes DIFFER)', g))
+                for e in es:
+                    for x in walk(e):
+                        if x[0] == 'bin' and x[1] in ('Eq', 'Ne', 'Lt', 'Le', 'Gt', 'Ge') and any(y[0] == 'field' and y[2] == 'inp' for y in walk(x)):
+                            cmps.append((x[1], g))
+                        elif x[0] == 'call' and isinstance(x[1], str) and ('PartialOrd' in x[1] or 'Ord>::' in x[1]) and any(y[0] == 'field' and y[2] == 'inp' for y in walk(x)):
+                            cmps.append((x[1].rsplit('::', 1)[-1], g))
+        bad = [(op, g) for op, g in cmps if op not in ('Eq', 'Ne')]
+        if bad:
+            ctx.violation(R, 'prefix-cmp', 'the common prefix of a new key with the pending path is computed with "%s" between the pending byte and the key byte; only equality makes it a common prefix' % bad[0][0], fn=bad[0][1])
+        elif cmps:
+            ctx.check(R, True, 'prefix-cmp', '', fn=f)
+        else:
+            ctx.undecided(R, 'prefix-cmp', 'no comparison of the pending byte with the key byte recognised in the set variant of the prefix routine', fn=f)
     f = lib.fn('raw::build::BuilderNodeUnfinished::add_output_prefix')
     if f is None:
         ctx.missing(R, 'anchor:add_output_prefix', 'add_output_prefix not found')
@@ -363,3 +389,10 @@ def run(ctx):
     import rules.C07 as C07
     from absint import Prover
     ctx.step(C07.r07_1, ctx, A, Prover(lib))
+    # a hit in the node cache links to an existing node and address 0 stands for "final, no transitions, zero final output": both
+    # replace a node by an address, so the round trip needs them exact (R12.1: hit returns the cached address, shortcut guard complete)
+    import rules.C12 as C12
+    ctx.step(C12.r12_1_4, ctx, A)
+    # reader and writer agree on the state byte / sizes byte bit fields, the decoder dispatch and the choice of node form (shared with C09)
+    ctx.step(formatrules.state_and_sizes_bits, ctx)
+    ctx.step(formatrules.form_selection, ctx)
